@@ -15,6 +15,9 @@ from mdsa.cfg import walk_local
 from mdsa.loader import AnalysisError, NoFold
 
 from .c08 import protocol_members
+from mdsa import match as M
+
+from .sem import F
 from .common import Ctx, local_defs
 from .wrapmodel import W, factory_uses, is_raw_expr
 
@@ -201,23 +204,47 @@ def r2_ih5_implements(P, rep, ctx):
         rep.check(hit is not None and hit[0].startswith("ih5."), "C09.R2", am, f"IH5AttributeManager implements MutableMapping.{m}", P.cls(am).module.relpath, construct=f"IH5AttributeManager.{m}", message=f"IH5AttributeManager lacks {m}")
     for q in (f"{O}.IH5Group.attrs", f"{O}.IH5Dataset.attrs"):
         f = P.func(q)
-        rep.check("IH5AttributeManager(self._record, self._gpath, self._cidx)" in norm(f.node), "C09.R2", f.qual, "attrs is the overlay attribute manager of the node", f.loc(), construct="attrs", message=f"{q} does not return the overlay attribute manager")
+        ff = F(ctx, f)
+        rep.check(bool(ff.returns()) and all(v is not None and ff.x(v) == "IH5AttributeManager(self._record, self._gpath, self._cidx)" for _, v in ff.returns()), "C09.R2", f.qual, "attrs is the overlay attribute manager of the node", f.loc(), construct="attrs", message=f"{q} does not return the overlay attribute manager")
 
 
 def r2b_visit_semantics(P, rep, ctx):
     """h5py semantics of visit/visititems: stop at the first callback result that is not None (identity test)."""
     fi = P.func(f"{O}.IH5Group.visititems")
-    g = ctx.cfg(fi)
-    tests = [t for t in g.nodes if t.kind == "test" and "val" in {x.id for x in ast.walk(t.exprs[0]) if isinstance(x, ast.Name)}]
-    ok = bool(tests) and all(norm(t.exprs[0]) == "val is not None" for t in tests) and all(all(isinstance(g.nodes[b].stmt, ast.Return) and norm(g.nodes[b].stmt.value) == "val" for b, l in g.succ[t.idx] if l == "T") for t in tests)
-    rep.check(ok, "C09.R2", fi.qual, "IH5 visititems stops exactly when the callback returns something that is not None (as h5py does)", fi.loc(), construct=f"visititems stop test {[norm(t.exprs[0]) for t in tests]}",
-              message=f"IH5Group.visititems decides whether to stop with `{[norm(t.exprs[0]) for t in tests]}`: h5py stops on any result that is not None, so falsy results (0, False, '') behave differently on the two drivers")
-    d = [norm(v) for k, v in local_defs(fi).get("val", []) if v is not None]
-    rep.check(d == ["func(self._rel_path(curr._gpath), curr)"], "C09.R2", fi.qual, "callback receives the path relative to the visited group and the node", fi.loc(), construct=f"callback call {d}", message=f"visititems calls the callback as {d}")
-    v = P.func(f"{O}.IH5Group.visit")
-    rep.check("return self.visititems(lambda x, _: func(x))" in norm(v.node), "C09.R2", v.qual, "visit is visititems on the names", v.loc(), construct="visit", message="IH5Group.visit is not derived from visititems")
-    t = norm(fi.node)
-    rep.check("stack = list(reversed(self._get_children()))" in t and "stack += reversed(curr._get_children())" in t and "isinstance(curr, IH5Group)" in t, "C09.R2", fi.qual, "pre-order traversal of all descendants in alphabetical order", fi.loc(), construct="traversal order", message="visititems does not traverse all descendants depth-first in key order")
+    f = F(ctx, fi)
+    g = f.g
+    cb = fi.params[1]
+    calls = f.call_sites(f"{cb}(__p, __n)")
+    rets = [(i, v) for i, v in f.returns() if v is not None]
+    # every value returned is the callback's result, and it is returned exactly when it is not None
+    CALLX = None
+    ok = bool(calls) and bool(rets)
+    if ok:
+        i0, c0, b0 = calls[0]
+        nvar = f.x(b0["__n"])
+        CALLX = f"{cb}(self._rel_path({nvar}._gpath), {nvar})"
+        stop = f.tests(f"{CALLX} is not None")
+        other = [t for t in g.nodes if t.kind == "test" and any(M.match(f"{cb}(___)", x) is not None for x in walk_local(f.xe_at(t.idx, t.exprs[0]))) and t.idx not in f.test_nodes(stop)]
+        ok = bool(stop) and not other and all(f.x_at(i, v) == CALLX for i, v in rets) and all(f.hit_before(i, edges=stop) for i, v in rets) and not f.reaches(stop, [n.idx for n in g.nodes if n.kind == "loop"] ) 
+    shown = [norm(t.exprs[0]) for t in g.nodes if t.kind == "test" and CALLX is not None and "(" in f.x_at(t.idx, t.exprs[0]) and cb + "(" in f.x_at(t.idx, t.exprs[0])]
+    rep.check(ok, "C09.R2", fi.qual, "IH5 visititems stops exactly when the callback returns something that is not None (as h5py does)", fi.loc(), construct="visititems stop test",
+              message=f"IH5Group.visititems decides whether to stop with `{shown}`: h5py stops on any result that is not None, so falsy results (0, False, '') behave differently on the two drivers")
+    d = sorted({f.x(c) for i, c, b in calls})
+    rep.check(bool(calls) and all(f.x(b["__p"]) == f"self._rel_path({f.x(b['__n'])}._gpath)" for i, c, b in calls), "C09.R2", fi.qual, "callback receives the path relative to the visited group and the node", fi.loc(), construct=f"callback call {d}", message=f"visititems calls the callback as {d}")
+    vfi = P.func(f"{O}.IH5Group.visit")
+    v = F(ctx, vfi)
+    okv = False
+    for _, rv in v.returns():
+        m = M.match("self.visititems(__l)", v.xe(rv)) if rv is not None else None
+        if m is not None and isinstance(m["__l"], ast.Lambda) and len(m["__l"].args.args) == 2 and M.match(f"{vfi.params[1]}({m['__l'].args.args[0].arg})", m["__l"].body) is not None:
+            okv = True
+    rep.check(okv, "C09.R2", vfi.qual, "visit is visititems on the names", vfi.loc(), construct="visit", message="IH5Group.visit is not derived from visititems")
+    init = [i for i, v_, b in f.stores("__s") if f.x(v_) in ("list(reversed(self._get_children()))", "self._get_children()[::-1]")]
+    push = [n.idx for n in g.nodes if n.kind == "stmt" and isinstance(n.stmt, ast.AugAssign) and isinstance(n.stmt.op, ast.Add) and M.match("reversed(__c._get_children())", n.stmt.value) is not None] + f.calls("__s.extend(reversed(__c._get_children()))")
+    isgrp = f.tests("isinstance(__c, IH5Group)")
+    pops = f.calls("__s.pop()")
+    ok = bool(init) and bool(push) and bool(isgrp) and bool(pops) and f.all_hit_before(push, edges=isgrp) and all(f.hit_before(l, nodes=push, src_edge=e) for e in isgrp for l in [n.idx for n in g.nodes if n.kind == "loop"])
+    rep.check(ok, "C09.R2", fi.qual, "pre-order traversal of all descendants in alphabetical order", fi.loc(), construct="traversal order", message="visititems does not traverse all descendants depth-first in key order")
 
 
 def r3_kwargs_agree(P, rep, ctx):
@@ -240,9 +267,9 @@ def r3_kwargs_agree(P, rep, ctx):
     rep.check(passed <= consumed, "C09.R3", mc.qual, f"keywords passed to the raw copy {sorted(passed)} are all consumed by the IH5 implementation {sorted(consumed)}", mc.loc(), construct=f"copy kwargs {sorted(passed)} vs {sorted(consumed)}",
               message=f"MetadorGroup.copy passes {sorted(passed - consumed)} to the raw copy, which IH5Group.copy/h5_copy_from_to reject as unknown keyword: copy works on h5py but raises on IH5")
     h = P.func(f"{O}.h5_copy_from_to")
-    g = ctx.cfg(h)
-    unk = [t for t in g.nodes if t.kind == "test" and norm(t.exprs[0]) == "kwargs"]
-    rep.check(bool(unk) and all(g.exit not in g.reach([b for b, l in g.succ[t.idx] if l == "T"]) for t in unk), "C09.R3", h.qual, "unknown keywords are refused on IH5 (as h5py does)", h.loc(), construct="unknown kwargs refusal", message="h5_copy_from_to silently ignores unknown keywords")
+    hf = F(ctx, h)
+    unk = hf.tests(h.params[3], f"len({h.params[3]})")
+    rep.check(hf.refuses(unk), "C09.R3", h.qual, "unknown keywords are refused on IH5 (as h5py does)", h.loc(), construct="unknown kwargs refusal", message="h5_copy_from_to silently ignores unknown keywords")
     cd = P.func(f"{O}.IH5Group.create_dataset")
     rep.check("data" in cd.params and "shape" in cd.params and "dtype" in cd.params, "C09.R3", cd.qual, "create_dataset accepts data= / shape= / dtype= like h5py", cd.loc(), construct="create_dataset params", message="IH5Group.create_dataset lacks the data/shape/dtype parameters the container uses")
     # raw calls with explicit keywords made by the container
@@ -261,22 +288,41 @@ def r4_driver_dispatch(P, rep, ctx):
     m = P.module(DR)
     rep.check(norm(m.assigns.get("METADOR_DRIVERS")) == "MetadorDriverEnum.to_dict()" and norm(m.assigns.get("METADOR_DRIVER_CLASSES")) == "tuple(METADOR_DRIVERS.values())", "C09.R4", DR, "driver tables derive from the enum", m.relpath, construct="METADOR_DRIVERS", message="METADOR_DRIVERS / METADOR_DRIVER_CLASSES are not derived from MetadorDriverEnum")
     td = en.methods.get("to_dict")
-    rep.check(td is not None and "{x: x.value for x in iter(cls)}" in norm(td.node), "C09.R4", en.qual, "to_dict covers every member", m.relpath, construct="to_dict", message="MetadorDriverEnum.to_dict does not map every member")
+    okt = False
+    if td is not None:
+        tf = F(ctx, td)
+        for _, v in tf.returns():
+            x = tf.xe(v) if v is not None else None
+            if isinstance(x, ast.DictComp) and len(x.generators) == 1 and not x.generators[0].ifs and norm(x.generators[0].iter) in ("iter(cls)", "cls") and norm(x.key) == norm(x.generators[0].target) and norm(x.value) == norm(x.generators[0].target) + ".value":
+                okt = True
+    rep.check(okt, "C09.R4", en.qual, "to_dict covers every member", m.relpath, construct="to_dict", message="MetadorDriverEnum.to_dict does not map every member")
     gs = P.func(f"{DR}.get_source")
-    g = ctx.cfg(gs)
+    gf = F(ctx, gs)
+    g = gf.g
     handled = set()
-    for t in g.nodes:
-        if t.kind == "test" and norm(t.exprs[0]).startswith("driver == MetadorDriverEnum."):
-            mem = norm(t.exprs[0]).rsplit(".", 1)[1]
-            if all(isinstance(g.nodes[b].stmt, ast.Return) and g.nodes[b].stmt.value is not None for b, l in g.succ[t.idx] if l == "T"):
-                handled.add(mem)
+    dv = gs.params[1]
+    for mem in members:
+        e = gf.tests(f"{dv} == MetadorDriverEnum.{mem}", f"{dv} is MetadorDriverEnum.{mem}", f"MetadorDriverEnum.{mem} == {dv}")
+        vals = [i for i, v in gf.returns() if v is not None and not (isinstance(v, ast.Constant) and v.value is None)]
+        if e and all(gf.hit_before(g.exit, nodes=vals, src_edge=x) for x in e):
+            handled.add(mem)
     rep.check(handled == set(members), "C09.R4", gs.qual, f"get_source handles every driver {sorted(members)}", gs.loc(), construct=f"get_source handles {sorted(handled)}", message=f"get_source has no branch for driver(s) {sorted(set(members) - handled)}: it falls through to None and the container cannot be re-opened")
     gd = P.func(f"{DR}.get_driver_type")
-    g = ctx.cfg(gd)
-    lp = [n for n in g.nodes if n.kind == "for" and norm(n.stmt.iter) == "METADOR_DRIVERS.items()"]
+    df = F(ctx, gd)
+    g = df.g
+    lp = [n for n in g.nodes if n.kind == "for" and df.x(n.stmt.iter) in ("METADOR_DRIVERS.items()", "MetadorDriverEnum.to_dict().items()")]
     falls = [p for p in g.pred.get(g.exit, []) if not isinstance(g.nodes[p].stmt, ast.Return)]
     rep.check(bool(lp) and not falls, "C09.R4", gd.qual, "get_driver_type checks every driver class and raises for unknown objects", gd.loc(), construct="get_driver_type", message="get_driver_type can fall through without a result")
-    th = P.func(f"{DR}.to_h5filelike")
-    t = norm(th.node)
-    rep.check("isinstance(name_or_obj, METADOR_DRIVER_CLASSES)" in t and "not issubclass(driver, METADOR_DRIVER_CLASSES)" in t and "raise ValueError" in t and "driver(cast(Any, name_or_obj), mode)" in t, "C09.R4", th.qual, "objects of a known driver pass through, other inputs are opened with a supported driver class or refused", th.loc(), construct="to_h5filelike", message="to_h5filelike does not restrict drivers to METADOR_DRIVER_CLASSES")
+    thf = P.func(f"{DR}.to_h5filelike")
+    th = F(ctx, thf)
+    obj, mode, drv = thf.params[0], thf.params[1], thf.params[2]
+    known = th.tests(f"isinstance({obj}, METADOR_DRIVER_CLASSES)")
+    unsupported = th.tests("not issubclass(__d, METADOR_DRIVER_CLASSES)")
+    opens = [(i, c, b) for i, c, b in th.call_sites(f"__d(cast(Any, {obj}), {mode})") + th.call_sites(f"__d({obj}, {mode})")]
+    rets = [(i, v) for i, v in th.returns() if v is not None]
+    passthru = [i for i, v in rets if th.x_at(i, v) in (obj, f"cast(H5FileLike, {obj})")]
+    opened = [i for i, c, b in opens]
+    ok = (bool(known) and bool(unsupported) and bool(opens) and bool(passthru) and th.all_hit_before(passthru, edges=known) and th.refuses(unsupported) and th.all_hit_before(opened, nodes=th.test_nodes(unsupported))
+          and th.all_hit_before(opened, edges=th.neg(known)) and all(th.x_at(i, b["__d"]) in (f"{drv} or h5py.File", f"h5py.File if {drv} is None else {drv}", f"{drv} if {drv} is not None else h5py.File", drv) for i, c, b in opens))
+    rep.check(ok, "C09.R4", thf.qual, "objects of a known driver pass through, other inputs are opened with a supported driver class or refused", thf.loc(), construct="to_h5filelike", message="to_h5filelike does not restrict drivers to METADOR_DRIVER_CLASSES")
     rep.check(norm(en.attrs.get("IH5")) == "IH5Record" and norm(en.attrs.get("HDF5")) == "h5py.File", "C09.R4", en.qual, "drivers are h5py.File and IH5Record (IH5MFRecord is a subclass)", m.relpath, construct="enum values", message="driver enum values changed")
